@@ -36,12 +36,25 @@ CLAIMS = {
     "C14": (E2TXT + " floor/ceil/round with both operands symbolic (division by a symbolic step through fresh quotient/remainder "
             "and the division lemma; symbolic products uninterpreted with instantiated facts, counterexamples refined with real multiplication).", "3 (C14)",
             "symbolic execution of rustc MIR + z3 (division lemma, UF multiplication + refinement); native replay"),
+    "C08": (E2TXT + " is_gregorian_valid over every i32 x u8^5 x u32 field combination against the month-length / 4-100-400 / leap-second-day rules restated from the statement (leap-second days generated from the data files); "
+            "maybe_from_gregorian with the year symbolic inside windows (loop forks once per year) and every other field and the scale fully symbolic against Hinnant's closed-form day count; "
+            "gregorian_epoch_offset enters E2 through a contract that Kani/CBMC decides on the real code.", "3 (C08)",
+            "symbolic execution of rustc MIR + z3 (validity at full width; day count in year windows); Kani/CBMC for the offset contract; native replay"),
+    "C11": (E2TXT + " Duration::decompose (sign, component ranges, exact weighted sum), subdivision, and the Epoch hours..nanoseconds accessors, for every canonical duration (numeric half of the property; text forms not claimed).", "3 (C11)",
+            "symbolic execution of rustc MIR + z3 (integer SMT, full width, external solver portfolio); native replay"),
+    "C16": (E2TXT + " Epoch::weekday / weekday_utc against floor(day index) mod 7 at full width for the uniform scales and UTC-labelled epochs, next/previous through the weekday contract; "
+            "Weekday conversions and arithmetic (all 7 x 256 and 49 combinations) by Kani/CBMC.", "3 (C16)",
+            "symbolic execution of rustc MIR + z3 (full width); Kani/CBMC exhaustive-symbolic for Weekday arithmetic; native replay"),
     "C03": ("Kani/CBMC bounded model checking of the real Duration comparison and equality code over all pairs/triples of constructor inputs; "
             "solver verdict per obligation, counterexamples replayed natively before being reported.",
             "3 (C03)", "bounded model checking (Kani/CBMC SAT) over symbolic inputs; native replay of counterexamples"),
 }
 
 NOT_APPLICABLE = {
+    "C07": "ET/TDB closed forms: the claim is a numeric bound (30 ns / 20 ns / 100 ns) on sin composed in a five-step fixed-point iteration. Neither back end has a semantics for sin (Kani/CBMC return an unconstrained value in [-1,1], measured; z3/cvc5 have no transcendental theory), so the solver can only derive an envelope |ET-TAI-32.184 s| <= K, which does not decide the property. DESIGN.md section 4.",
+    "C10": "text and serde round trip: needs core::fmt rendering of symbolic integers into a String followed by the hand-written tokenizer and lexical-core. Measured: Epoch::from_str on any 7-8 byte symbolic input exceeds 10 GB / 15 min in CBMC (the shortest valid date is 19 bytes); the MIR executor has no string/heap model. The numeric core both directions share is decided under C08/C09/C11. DESIGN.md section 4.",
+    "C13": "parser totality over all UTF-8 strings: same obstacle as C10 (UTF-8 decoding, Unicode tables, lexical-core generics under CBMC); only TimeScale::from_str on <= 4 bytes finished (35 s), not a meaningful bound for a claim about every string. Field-range rejection is decided at the constructor under C08. DESIGN.md section 4.",
+    "C19": "strftime formatting: impl Display for Formatter over a symbolic Format drives core::fmt per item into a byte stream that would have to be compared with a reference renderer; not reachable with either engine at a bound that would mean anything; the constants-vs-documentation clause has no quantifier. The fields the tokens print are decided under C09/C16. DESIGN.md section 4.",
 }
 
 def main():
